@@ -66,6 +66,8 @@ def make_case(prop, seed, i, tier):
     if r < 0.75:
         return dict(prop=prop, i=i, kind="queries", rseed=rng.randrange(10 ** 9))
     spec = G.gen_random(rng, G.profile(facility_rich=rng.random() < 0.4, max_time=50))
+    if rng.random() < 0.12:
+        G.add_idle_parts(rng, spec)
     return dict(prop=prop, i=i, kind="simlogs", spec=spec, rseed=rng.randrange(10 ** 9))
 
 
